@@ -73,7 +73,7 @@
 
 // harness/c14_member.cpp (second translation unit): the ops `mem` and `mems` (member operators on objects in one memory)
 std::string c14_member_handle(std::vector<std::string> const &);
-// harness/c14_extra.cpp (third translation unit): the ops `nb`, `tp`, `inf` (neighbouring public API)
+// harness/c14_extra.cpp (third translation unit): the ops `nb`, `md`, `tp`, `inf` (neighbouring public API)
 std::string c14_extra_handle(std::vector<std::string> const &);
 
 namespace
@@ -1345,7 +1345,7 @@ std::string handle1(std::vector<std::string> const &t)
       return det0_op();
     if (t[0] == "mem" || t[0] == "mems")
       return c14_member_handle(t);
-    if (t[0] == "nb" || t[0] == "tp" || t[0] == "inf")
+    if (t[0] == "nb" || t[0] == "md" || t[0] == "tp" || t[0] == "inf")
       return c14_extra_handle(t);
     return "bad-op";
   }
